@@ -11,9 +11,9 @@ drv_C43: one history per line.
   OPARG ::= `1 ARG` | `L <n> ARG{n} ARG`;  `cur PP PS PN` (`_` = unbound, PN hex);
   `rd <n> <hex>{n}`.
 Result: step results joined by ` ;; `:
-* `op|<err followed>|<table followed>|<err iso>|<table iso>|<deviation tags>|<inv 0/1>`
-* `cur|<solutions followed>|<solutions iso>`
-* `rd|T=<term>` / `rd|syntax_error` / `rd|ambiguous`
+* `op@@<err followed>@@<table followed>@@<err iso>@@<table iso>@@<deviation tags>@@<inv 0/1>`
+* `cur@@<solutions followed>@@<solutions iso>`
+* `rd@@T=<term>` / `rd@@syntax_error` / `rd@@ambiguous`
 -/
 open Scryer.Drv
 open Scryer.OpTable
@@ -125,7 +125,7 @@ def steps (fx : Fixes) (curFixed : Bool) (names : List String) :
       let tagAtomic := !fx.atomic && (opStepImpl ⟨fx.bar, true⟩ t c != f)
       let tags := (if tagBar then ["bar"] else []) ++ (if tagAtomic then ["atomic"] else [])
       let tags := if f != i && tags.isEmpty then ["unknown"] else tags
-      let line := "|".intercalate
+      let line := "@@".intercalate
         ["op", showErr f.2, showTable names f.1, showErr i.2, showTable names i.1,
          ",".intercalate tags, if invOk f.1 then "1" else "0"]
       steps fx curFixed names fuel r' f.1 (line :: acc)
@@ -136,7 +136,7 @@ def steps (fx : Fixes) (curFixed : Bool) (names : List String) :
     | some p, some s =>
       let q : Pat := ⟨p, s, if pn = "_" then none else some (unhex pn)⟩
       let restrict := fun (l : List (Nat × Spec × String)) => l.filter fun x => names.contains x.2.2
-      let line := "|".intercalate
+      let line := "@@".intercalate
         ["cur", showTriples (restrict (currentOpQ curFixed t q)),
          showTriples (restrict (currentOpQ true t q))]
       steps fx curFixed names fuel r t (line :: acc)
@@ -147,9 +147,9 @@ def steps (fx : Fixes) (curFixed : Bool) (names : List String) :
       let toks := (r.take k).map unhex
       let res :=
         match readSentence t toks with
-        | [] => "rd|syntax_error"
-        | [x] => s!"rd|T={showRTerm x}"
-        | _ => "rd|ambiguous"
+        | [] => "rd@@syntax_error"
+        | [x] => s!"rd@@T={showRTerm x}"
+        | _ => "rd@@ambiguous"
       steps fx curFixed names fuel (r.drop k) t (res :: acc)
     | none => ("bad-rd-step" :: acc).reverse
   | _, tok :: _, _, acc => (s!"bad-token {tok}" :: acc).reverse
